@@ -125,6 +125,8 @@ def ttm_scalar(E, s):
     else:
         if s['skind'] == 'int':
             a = s['ival']
+        elif s['skind'] == 'pyfloat':
+            a = float(s['fval'])          # a concrete python float (a double that float32 cannot represent)
         else:
             a = E.scalar('a', s['skind'], s['dtype'])
         if s.get('nonzero'):
